@@ -163,6 +163,12 @@ class Spectrum:
                 raise
 
         elif isinstance(other, Spectrum):
+            if (valueunit is not None and other.valueunit is not None
+                    and other.valueunit != valueunit):
+                # operands in different flux units: the right one is expressed in
+                # the flux unit of the left one (which is the unit of the result)
+                other = other.copy()
+                other.to(valueunit)
             wave, self_value, other_value = _interp_common(self, other, sampling,
                                                            method, fill_value)
             value = ufunc(self_value, other_value)
@@ -170,6 +176,10 @@ class Spectrum:
                 # unitless (a transmission, an efficiency) combined with a flux
                 # density is a flux density, in either order
                 valueunit = other.valueunit
+            elif other.valueunit is not None and ufunc is np.divide:
+                # the ratio of two flux densities is a pure number (the same number
+                # in whatever wavelength unit the two densities are expressed)
+                valueunit = None
         else:
             raise TypeError(f"can't {ufunc.__name__} Spectrum with object of type "
                             f"{type(other).__name__}")
